@@ -19,13 +19,14 @@ func init() {
 		Explanation: "Structural necessary conditions of 'statistics agree with the world': " +
 			"(R1) fresh and incremental paths agree: for the table and the archetype statistics every field the fresh path assigns is assigned by the update path from the same source expression (modulo the receiver and the memory-per-entity operand), or is listed as immutable after creation; the update path truncates the cached table list when the archetype has fewer active tables, updates the common prefix and appends the rest, and both paths add the free tables' capacity and memory; " +
 			"(R2) provenance: used/recycled/total/capacity come from the pool accessors with exactly those meanings (derived from the accessor bodies), cached filters from the cache's entry list, observers from the observer counter, locked from the lock test, and the memory figures are sums over the per-archetype figures; " +
-			"(R3) the observer counter is incremented on every path that registers an observer, decremented where one is removed and zeroed on reset; (R4) archetype uniqueness site (C01/R7). Not decided: numeric equality with the world for every history.",
+			"(R3) the observer counter is incremented on every path that registers an observer, decremented where one is removed and zeroed on reset; (R4) archetype uniqueness site (C01/R7). (R5) the graph's find-or-create step compares the wanted component set with every existing node (a loop over the whole node list) before it appends a node. Not decided: numeric equality with the world for every history.",
 		TrustedBase: []string{"go/types, go/cfg", "frozen table of statistics fields that are immutable after archetype creation"},
 		Rules: []Rule{
 			{ID: "C19/R1", Run: c19r1, Min: 1},
 			{ID: "C19/R2", Run: c19r2, Min: 1},
 			{ID: "C19/R3", Run: c19r3, Min: 1},
 			{ID: "C19/R4", Run: c01r7, Min: 1},
+			{ID: "C19/R5", Run: c19r5, Min: 1},
 		},
 	})
 }
